@@ -16,8 +16,13 @@ STATES_INT = [dict(A=2, B=3, C=1), dict(A=0, B=1, C=4), dict(A=5, B=0, C=2), dic
 def write_model(m, stochastic):
     fd, path = tempfile.mkstemp(suffix='.xml', prefix='c14_', dir='/dev/shm' if os.path.isdir('/dev/shm') else None)
     os.close(fd)
+    # the same model is first written in the OTHER form (nothing of that export may reach the one that is judged), and the flag is
+    # given as a numpy boolean as often as a Python one
     np.random.seed(20260927)       # every document of the run carries the same generated model id
-    m.write_sbml_model(path, stochastic_model=stochastic)
+    m.write_sbml_model(path, stochastic_model=(not stochastic))
+    flag = np.bool_(stochastic) if (len(m.get_species_list()) + len(m.get_parameter_dictionary())) % 2 else bool(stochastic)
+    np.random.seed(20260927)
+    m.write_sbml_model(path, stochastic_model=flag)
     return path
 
 
